@@ -1070,7 +1070,29 @@ Definition model_order_sites : list ((string * string * string * string * string
       Insensitive "ranges over the populated members of the Field.type oneof: at most one iteration"
         _ (@at_most_one_has_one_order bytes));
     (("sourcewalk", "sourcewalk.go", "SourceNode.child", "maps.Keys", "walk.Source.Children"),
-      NotObserved "argument of a log line under `if false`") ].
+      NotObserved "argument of a log line under `if false`");
+    (* the front end (internal/bcl/**, lib/j5reflect), scanned since the audit *)
+    (("j5reflect", "property_set.go", "copyReflect", "protoreflect.Message.Range", "a"),
+      Insensitive "copies each populated field of a into the same field of b: assignments to distinct fields"
+        _ assign_distinct_fields_commute);
+    (("j5reflect", "type_map.go", "mutableMapField.Range", "protoreflect.Map.Range", "mapField.value"),
+      NotObserved "reader API of map fields (encoder side); no caller in internal/bcl or internal/j5s");
+    (("j5reflect", "type_map.go", "leafMapField.Range", "protoreflect.Map.Range", "mapField.value"),
+      NotObserved "reader API of map fields (encoder side); no caller in internal/bcl or internal/j5s");
+    (("walker/schema", "container_set.go", "containerSet.allChildFields", "range-map", "blockSchema.spec.Aliases"),
+      Insensitive "inserts each alias under its own name unless present: the keys of the ranged map are distinct, no key is written twice"
+        _ assign_distinct_fields_commute);
+    (("walker/schema", "container_set.go", "containerSet.listChildren", "maps.Keys", "fields"),
+      Modelled "keys then sort.Strings" _ sort_names_perm);
+    (("walker/schema", "container_set.go", "containerSet.listAttributes", "range-map", "fields"),
+      Modelled "filtered keys then sort.Strings" _ sort_names_perm);
+    (("walker/schema", "container_set.go", "containerSet.listBlocks", "range-map", "fields"),
+      Modelled "filtered keys then sort.Strings" _ sort_names_perm);
+    (("walker/schema", "schemaset.go", "SchemaSet._buildSpec", "range-map", "newAliases"),
+      Insensitive "copies each new alias into blockSpec.Aliases unless present: distinct keys, no key written twice"
+        _ assign_distinct_fields_commute);
+    (("walker/schema", "scope.go", "Scope.PrintScope", "range-map", "sw.blockSet.allChildFields()"),
+      NotObserved "debug printing of a scope") ].
 
 (* every unordered iteration found by the translator is classified, and nothing else is claimed:
    equality as SETS (moving a loop inside its file does not matter; a new loop, or one that
